@@ -38,7 +38,7 @@ Section OneInsert.
 
   Lemma one_insert_new r i : RM root1 r i -> RM root r i \/ (r = atoms_of ps /\ i = d).
   Proof.
-    intros Hi. destruct one_insert_InsM as [Ia Ib].
+    intros Hi. destruct one_insert_InsM as (Ia & Ib & _).
     destruct (route_eq_dec r (atoms_of ps)) as [->|Hne]; [|left; apply Ia; auto].
     destruct Ib as [Hb|(_ & o & Ho & Ho')].
     - right. split; [reflexivity|]. apply (RM_unique root1 (atoms_of ps)); [apply one_insert_wf|exact Hi|exact Hb].
@@ -49,7 +49,30 @@ Section OneInsert.
   Proof. intros Hne Hi. destruct one_insert_InsM as [Ia _]. apply Ia; auto. Qed.
 
   Lemma one_insert_present : exists i, RM root1 (atoms_of ps) i.
-  Proof. destruct one_insert_InsM as [_ [Hb|(_ & o & _ & Ho')]]; eauto. Qed.
+  Proof. destruct one_insert_InsM as (_ & [Hb|(_ & o & _ & Ho')] & _); eauto. Qed.
+
+  (* exactly which info the inserted route carries afterwards *)
+  Definition ins_cur (cur : option info) : option info :=
+    match cur with
+    | Some o => if ends_in_wild (atoms_of ps) then Some o else Some d
+    | None => Some d
+    end.
+
+  Lemma one_insert_exact cur :
+    (forall o, RM root (atoms_of ps) o <-> cur = Some o) ->
+    forall o, RM root1 (atoms_of ps) o <-> ins_cur cur = Some o.
+  Proof.
+    intros Hcur o. destruct one_insert_InsM as (_ & Ib & Ic). destruct one_insert_wf as [W1 _].
+    assert (Hone : forall x, RM root1 (atoms_of ps) x -> (RM root1 (atoms_of ps) o <-> x = o)).
+    { intros x Hx. split; [intros Ho; apply (RM_unique root1 (atoms_of ps) x o W1 Hx Ho)|intros <-; exact Hx]. }
+    unfold ins_cur. destruct cur as [o0|].
+    - pose proof (proj2 (Hcur o0) eq_refl) as H0.
+      destruct (ends_in_wild (atoms_of ps)) eqn:Ew.
+      + rewrite (Hone o0 (Ic eq_refl o0 H0)). split; congruence.
+      + destruct Ib as [Hb|(Hw & _)]; [|congruence]. rewrite (Hone d Hb). split; congruence.
+    - destruct Ib as [Hb|(_ & o1 & Ho1 & _)]; [rewrite (Hone d Hb); split; congruence|].
+      apply Hcur in Ho1. discriminate.
+  Qed.
 
   Lemma one_insert_monotone r : (exists i, RM root r i) -> exists i, RM root1 r i.
   Proof.
@@ -115,6 +138,52 @@ Section ManyInserts.
     destruct Hin as [<-|Hin].
     - apply (ins_all_monotone es _ Hes W1 D1). apply one_insert_present; auto.
     - apply IH; auto.
+  Qed.
+
+  (* the info route r0 carries after inserting es in order, when it carried [cur] before: a later expansion
+     with the same route overwrites, except that a route ending in a catch-all keeps its first info *)
+  Fixpoint fold_info (es : list expansion) (r0 : route) (cur : option info) : option info :=
+    match es with
+    | [] => cur
+    | e :: es' =>
+      fold_info es' r0 (if route_eq_dec (exp_route e) r0
+                        then match cur with
+                             | Some o => if ends_in_wild r0 then Some o else Some (mk e)
+                             | None => Some (mk e)
+                             end
+                        else cur)
+    end.
+
+  Lemma ins_all_exact : forall es root r0 cur, PartsOK es -> wf root = true -> disc root = true ->
+    (forall o, RM root r0 o <-> cur = Some o) ->
+    forall o, RM (ins_all es root) r0 o <-> fold_info es r0 cur = Some o.
+  Proof.
+    induction es as [|e es IH]; intros root r0 cur Hes Hwf Hd Hcur o; cbn [ins_all fold_left fold_info]; [apply Hcur|].
+    apply Forall_inv in Hes as He. apply Forall_inv_tail in Hes.
+    destruct (one_insert_wf root (snd e) (mk e) Hwf Hd He) as [W1 D1].
+    apply IH; auto. intros o'.
+    destruct (route_eq_dec (exp_route e) r0) as [<-|Hne].
+    - apply (one_insert_exact root (snd e) (mk e) Hwf Hd He cur Hcur o').
+    - rewrite <- Hcur. destruct (one_insert_InsM root (snd e) (mk e) Hwf He) as (Ia & _). apply Ia.
+      intros ->. apply Hne. reflexivity.
+  Qed.
+
+  Lemma fold_info_some : forall es r0 cur i, fold_info es r0 cur = Some i ->
+    cur = Some i \/ exists e, In e es /\ exp_route e = r0 /\ i = mk e.
+  Proof.
+    induction es as [|e es IH]; intros r0 cur i H; cbn [fold_info] in H; [left; exact H|].
+    destruct (IH _ _ _ H) as [Hc|(e' & He' & Hr & Hi)]; [|right; exists e'; split; [right; exact He'|auto]].
+    destruct (route_eq_dec (exp_route e) r0) as [Heq|Hne]; [|left; exact Hc].
+    destruct cur as [o|].
+    - destruct (ends_in_wild r0); [left; exact Hc|]. inversion Hc. right. exists e. split; [left; reflexivity|auto].
+    - inversion Hc. right. exists e. split; [left; reflexivity|auto].
+  Qed.
+
+  Lemma fold_info_other : forall es r0 cur, (forall e, In e es -> exp_route e <> r0) -> fold_info es r0 cur = cur.
+  Proof.
+    induction es as [|e es IH]; intros r0 cur H; cbn [fold_info]; [reflexivity|].
+    destruct (route_eq_dec (exp_route e) r0) as [Heq|Hne]; [destruct (H e (or_introl eq_refl) Heq)|].
+    apply IH. intros e' He'. apply H. right; exact He'.
   Qed.
 End ManyInserts.
 
@@ -695,4 +764,39 @@ Proof.
     destruct (existsb _ es) eqn:Ex; [reflexivity|]. exfalso.
     destruct Habs as (e & He & Hno).
     destruct (rdelete_validated r t es HR Ep Em Ex e He) as (i & Hi & _). apply (Hno i Hi).
+Qed.
+
+(* ---- exactly which infos an accepted template stores ---- *)
+Definition tinfo (t : bytes) (d : N) (es : list expansion) (r0 : route) : option info :=
+  fold_info (mk_info t (match es with _ :: _ :: _ => true | _ => false end) d) es r0 None.
+
+Lemma tinfo_some t d es r0 i : tinfo t d es r0 = Some i ->
+  exists e, In e es /\ exp_route e = r0 /\ i_template i = t /\ i_data i = d.
+Proof.
+  intros H. apply fold_info_some in H as [H|(e & He & Hr & ->)]; [discriminate|]. exists e. repeat split; auto.
+Qed.
+
+Theorem rinsert_ok_exact r t d r' :
+  RInv r -> rinsert r t d = (r', ROk tt) ->
+  exists es, parse t = Ret es
+    /\ forall r0 i, RM (r_root r') r0 i <-> (RM (r_root r) r0 i \/ tinfo t d es r0 = Some i).
+Proof.
+  intros HR H. destruct (rinsert_ok_routes r t d r' HR H) as (es & Ep & Hfree & _ & Hother & _).
+  exists es. split; [exact Ep|].
+  rewrite rinsert_unfold, Ep in H. destruct (first_some _ es); [inversion H|]. cbv zeta in H.
+  destruct (filter_map _ es); inversion H; subst. clear H. cbn [r_root] in *.
+  destruct HR as [Hwf Ht]. pose proof (tidy_disc _ Ht) as Hd.
+  pose proof (parse_parts_wf t es Ep) as Hok.
+  set (mk := mk_info t (match es with _ :: _ :: _ => true | _ => false end) d) in *.
+  assert (Hex : forall r0 i, (exists e, In e es /\ exp_route e = r0) ->
+              (RM (optimize (ins_all mk es (r_root r))) r0 i <-> tinfo t d es r0 = Some i)).
+  { intros r0 i (e & He & <-). rewrite (optimize_routes (ins_all mk es (r_root r)) (exp_route e) i). unfold tinfo. fold mk.
+    apply (ins_all_exact mk es (r_root r) (exp_route e) None Hok Hwf Hd).
+    intros o. split; [intros Ho; destruct (Hfree e o He Ho)|discriminate]. }
+  intros r0 i. destruct (is_exp es (r0, i)) eqn:Ex.
+  - apply is_exp_true in Ex as (e & He & Heq). cbn [fst] in Heq.
+    rewrite (Hex r0 i) by (exists e; auto). split; [auto|]. intros [Hold|Hn]; [|exact Hn].
+    subst r0. destruct (Hfree e i He Hold).
+  - rewrite is_exp_false in Ex. cbn [fst] in Ex. rewrite (Hother r0 i Ex). split; [auto|].
+    intros [Hold|Hn]; [exact Hold|]. apply tinfo_some in Hn as (e & He & Hr & _). destruct (Ex e He (eq_sym Hr)).
 Qed.
